@@ -80,6 +80,33 @@ def probe_env(op: Op, cfg: Dict[str, Any], seed: int, env: str, draws: int = 2, 
         return probe(op, cfg, seed, draws=draws, gdraws=gdraws)
 
 
+def _ref_noise(op: Op, cfg: Dict[str, Any], tr: Dict[str, Any], diff: List[str], up: Any, gr: Any, k0: int) -> Dict[str, float]:
+    """Rounding noise of the *reference* gradient in a low-precision dtype: the same PyTorch
+    reference evaluated on the same values in float64.  Where the reference itself is not accurate to
+    the comparison tolerance (cancellation, a gradient that is exactly zero in exact arithmetic),
+    proportionality of the low-precision gradients is not decidable and the caller skips it.
+    Deterministic configurations only (a dropout mask need not be the same across dtypes)."""
+    import torch
+
+    if cfg.get("dtype") in (None, "float64") or op.name == "dropout" or cfg.get("dropout_p", 0.0):
+        return {}
+    try:
+        t64 = {k: (v.detach().double().requires_grad_(k in diff) if isinstance(v, torch.Tensor) and v.is_floating_point() else v)
+               for k, v in tr.items()}
+        torch.manual_seed(k0)
+        y64 = op.ref(t64, cfg, sum_reduce=True) if op.loss else op.ref(t64, cfg)
+        g64 = torch.autograd.grad(y64, [t64[k] for k in diff], up.to(y64.dtype), allow_unused=True)
+    except Exception:  # noqa - no float64 twin for this configuration: no noise information
+        return {}
+    out = {}
+    for k, b, b64 in zip(diff, gr, g64):
+        if b is None or b64 is None:
+            continue
+        den = float(b.detach().double().abs().max())
+        out[k] = float((b.detach().double() - b64.detach()).abs().max()) / den if den > 0 else 0.0
+    return out
+
+
 def relayout(t: Dict[str, Any], layout: str) -> Dict[str, Any]:
     """same values, different memory layout: non-contiguous (transposed storage / strided) or a
     stride-0 expanded leading dimension"""
@@ -179,6 +206,7 @@ def probe(op: Op, cfg: Dict[str, Any], seed: int, draws: int = 2, gdraws: int = 
                     return {"unit_exc": e}
                 gr = torch.autograd.grad(yr_g, [tr[k] for k in diff], up.to(yr_g.dtype), retain_graph=True,
                                          allow_unused=True)
+                noise = _ref_noise(op, cfg, tr, diff, up, gr, k0)
                 for k, a, b in zip(diff, gu, gr):
                     if b is None and a is None:
                         rec["grads"][k].append({"c": None, "res": 0.0, "zero": True})
@@ -188,7 +216,7 @@ def probe(op: Op, cfg: Dict[str, Any], seed: int, draws: int = 2, gdraws: int = 
                                                 "missing": "unit" if a is None else "ref"})
                         continue
                     c, res = fit(a, b)
-                    rec["grads"][k].append({"c": c, "res": res, "zero": c is None,
+                    rec["grads"][k].append({"c": c, "res": res, "zero": c is None, "noise": noise.get(k, 0.0),
                                             "dtype_ok": a.dtype == b.dtype and a.shape == b.shape})
         # ---- inputs untouched
         mod = []
